@@ -117,6 +117,9 @@ CORPUS_SRC = r'''(def corpus @[])
                 (peg/compile '(* (uint 1) (uint 2) (lenprefix (number 1) 1) (only-tags (<- 1 :x)) (unref (<- 1 :y))))
                 (peg/compile '(* (nth 0 (* (<- 1) (<- 1))) (sub (<- 2) (<- 1)) (split "," (<- 1))))
                 (peg/compile ~(* (cmt (<- 1) ,(fn [x] (string x x))) (/ (<- 1) ,(fn [y] [y])) (% (* (<- 1) (constant "z")))))])
+# a literal whose bytes would decode as (constant 0x7FFFFFF0): data words that no rule reference may reach
+(add "peg-nth-literal" (peg/compile '(+ (nth 0 (* (<- 1) (<- 1))) (* "\x10\0\0\0\xF0\xFF\xFF\x7F\0\0\0\0" (drop (<- 1))) (if-not "\x10\0\0\0\xF0\xFF\xFF\x7F" 1))))
+(add "thunk-cancel" (fn cancel-user [&opt v] (def f (fiber/new (fn [] (yield 1) 2))) (resume f) (cancel f v)))
 # signed / big-endian readint rules: Janet 1.38 cannot load these back (the verifier compares the packed operand
 # with the maximum width) - kept as a seed of their own so that the other PEG images stay loadable
 (add "peg-readint" (peg/compile '(* (int 2) (uint-be 4) (int-be 1) (int 8))))
